@@ -81,6 +81,8 @@ class Ty:
     def __repr__(self):
         if self.kind == "ref":
             return "ref:%s%s" % (self.cls, "?" if self.nullable else "")
+        if self.kind == "enum":
+            return "enum:%s" % self.cls
         if self.kind == "seq":
             return "seq[%r]" % (self.elem,)
         if self.kind == "arr":
@@ -128,11 +130,12 @@ _tuple_sorts = {}
 
 
 def tuple_sort(ty):
-    k = repr(ty)
+    # keyed by the z3 sorts of the components (all references are Int, whatever their class)
+    k = "tup(" + ",".join(str(elem_sort(e)) if e.kind != "tup" else repr(e) for e in ty.elems) + ")"
     if k not in _tuple_sorts:
         name = "Tup%d" % len(_tuple_sorts)
         dt = z3.Datatype(name)
-        dt.declare("mk_" + name, *[("f%d_%s" % (i, name), sort_of(e)) for i, e in enumerate(ty.elems)])
+        dt.declare("mk_" + name, *[("f%d_%s" % (i, name), elem_sort(e)) for i, e in enumerate(ty.elems)])
         _tuple_sorts[k] = dt.create()
     return _tuple_sorts[k]
 
@@ -167,7 +170,7 @@ def sort_of(ty):
         return z3.StringSort()
     if k == "obj":
         return PyObj
-    if k in ("ref", "exc", "none"):
+    if k in ("ref", "exc", "none", "enum", "type"):
         return z3.IntSort()
     if k == "seq":
         return z3.SeqSort(elem_sort(ty.elem))
@@ -190,6 +193,10 @@ def parse_type(s):
               "obj": OBJ, "none": NONE, "exc": EXC}
     if s in simple:
         return simple[s]
+    if s.startswith("enum:"):
+        return Ty("enum", cls=s[5:])
+    if s == "type":
+        return Ty("type")
     if s.startswith("ref:"):
         c = s[4:]
         if c.endswith("?"):
